@@ -114,7 +114,7 @@ def run(chk):
     chk.account(asrv, tres, 'E1-detsched+cooploop')
     chk.collect_monitors(tres, props, keyfn)
     chk.cov.setdefault('suites', {})['E1 AsyncServer.stream/call vs Server.stream/call, AsyncParmapper(thread) vs Stream.parmap'] = \
-        dict(cases=len(tres), by_kind={k: sum(1 for c in thr if c['kind'] == k) for k in ('srv_stream', 'srv_call', 'apmap_thread')})
+        dict(cases=len(tres), by_kind={k: sum(1 for c in thr if c['kind'] == k) for k in ('srv_stream', 'srv_call', 'apmap_thread', 'pmap_async')})
     for case, res in results:
         if scen.nontrivial(case, res) and case.get('pf') and not case.get('perm'):
             chk.sample(dict(case=case, events=res.get('events', [])[:60], out=res.get('out'), end=res.get('end'),
@@ -189,7 +189,7 @@ ASSUMPTIONS = [
 
 
 def replay(chk, data):
-    e1 = data['case'].get('kind') in ('srv_stream', 'srv_call', 'apmap_thread')
+    e1 = data['case'].get('kind') in ('srv_stream', 'srv_call', 'apmap_thread', 'pmap_async')
     res = chk.run_cases(SCEN_E1 if e1 else SCEN, [data['case']], sched=e1)
     case, r = res[0]
     hits = [m for m in r['monitors'] if m['prop'] == chk.prop]
